@@ -40,7 +40,10 @@ func init() {
 			"deadline is made to expire once or twice (one case in eight: not at all), then - if the connection is still open - the rest follows: filler, then on lines of their own " +
 			"MAIL FROM / RCPT TO / DATA / a small message addressed to a mailbox used nowhere else, then the final dot. Whatever the replies: every mailbox stays empty and (file) no " +
 			"file of the store directory contains the outer or inner token; the last reply after the final dot is not 2xx; a session still open has given at most two replies since 354, " +
-			"answers NOOP with exactly one reply and carries the follow-up transaction; without an expiry exactly one non-2xx reply and the session stays open.",
+			"answers NOOP with exactly one reply and carries the follow-up transaction; without an expiry exactly one non-2xx reply and the session stays open. " +
+			"Other SMTP switches (after seeded change C06-13): about 5 in 8 connections of the conn stream run against a server with one of, or a random subset of, Debug on / DefaultStore off with inbucket.test in StoreDomains / " +
+			"DefaultAccept off with both test domains in AcceptDomains / TLSEnabled with a throw-away certificate (STARTTLS offered, not used), drawn from a stream of their own so the probes are unchanged; same oracle. " +
+			"The starttls stream runs one case in five with Debug on and one in five with ForceTLS (the session is handed a tls.Server connection, handshake before the greeting, no STARTTLS), half of those with Debug too.",
 		Assumptions: []string{
 			"the acceptance side is only asserted for messages that start with a well-formed header block (Deliver may answer 451 otherwise)",
 			"sizes between lo and hi of the limit are don't-care, so a pure off-by-one in the comparison is not decidable",
@@ -48,6 +51,7 @@ func init() {
 			"a follow-up MAIL answered 503 is retried after RSET (a server may keep the failed transaction open); only a follow-up that still fails is a violation",
 			"sessions run through VerifServeConn on an in-memory net.Conn",
 			"stall stream: the idle timeout is injected as a deadline error of the pending Read on the in-memory connection (sut.QConn.FireReadTimeout), not waited for; a session the server ends at the expiry owes nothing further",
+			"switch variants keep the address policy's decision for inbucket.test (accepted, stored) and discard.test (accepted, not stored) as under the defaults; with Debug on at limits 65536 / 1000000 only one in four / eight of the selected connections switch it on (output volume)",
 			"overlap stream: the listener that holds a delivery returns nil (no opinion), so the address policy decides exactly as without it; only DATA-phase refusals are produced there",
 		},
 		MinObs: func(tier string) map[string]int64 {
@@ -63,6 +67,14 @@ func init() {
 				"stall_cases": 110 * f, "stall_deadline_expiries": 100 * f, "stall_expiry_beyond_limit": 70 * f, "stall_store_found_empty": 110 * f,
 				"stall_control_cases": 12 * f, "stall_inside_a_line": 30 * f, "stall_disk_scans": 55 * f,
 				"stall_where:beyond-far": 30 * f, "stall_where:beyond-near": 30 * f, "stall_where:around": 12 * f, "stall_where:before": 12 * f}
+			// after seeded change C06-13 (switches.go): the workload under the other SMTP switches
+			m["switched_connections"] = 1500 * f
+			m["starttls_sessions_debug"] = 6 * f
+			m["starttls_sessions_forcetls"] = 4 * f
+			for _, n := range switchNames {
+				m["switched_must_refuse_data:"+n] = 80 * f
+				m["switched_must_accept:"+n] = 30 * f
+			}
 			for _, l := range limits {
 				for _, b := range []string{"mem", "file"} {
 					m[fmt.Sprintf("config:%d/%s", l, b)] = 50 * f
@@ -290,6 +302,7 @@ type conn struct {
 	model       map[string][]sut.MsgSnap
 	seq         int
 	hung        bool
+	switches    string // "" or the non-default SMTP switches of this connection's server (switches.go)
 }
 
 // cmd is SMTPSession.Cmd, except that an expired watchdog is a bounded-progress candidate (the
@@ -315,6 +328,10 @@ func (k *conn) fail(key, what string, extra map[string]any) {
 		return
 	}
 	d := map[string]any{"limit": k.limit, "backend": k.backend, "trace": k.ss.Trace}
+	if k.switches != "" {
+		d["smtp_switches"] = k.switches
+		what = "[SMTP switches: " + k.switches + "] " + what
+	}
 	for a, b := range extra {
 		d[a] = b
 	}
@@ -335,6 +352,11 @@ func runConn(c *fw.Ctx, idx int, r *fw.Rand) {
 		conf.Storage.Type = "file"
 		conf.Storage.Params = map[string]string{"path": c.TempDir("c06fs")}
 	}
+	swLabel, swInconclusive := applySwitches(c, conf, idx, limit)
+	if swInconclusive != "" {
+		c.Inconclusive(swInconclusive)
+		return
+	}
 	env, err := sut.NewEnv(conf, backend)
 	if err != nil {
 		panic(err)
@@ -342,7 +364,7 @@ func runConn(c *fw.Ctx, idx int, r *fw.Rand) {
 	c.Count(fmt.Sprintf("config:%d/%s", limit, backend), 1)
 	ss := env.StartSMTP()
 	ss.Watchdog = 120 * time.Second * time.Duration(c.Slow)
-	k := &conn{c: c, env: env, ss: ss, limit: limit, backend: backend, idx: idx, known: map[string]bool{}, model: map[string][]sut.MsgSnap{}, probeDomain: "inbucket.test"}
+	k := &conn{c: c, env: env, ss: ss, limit: limit, backend: backend, idx: idx, known: map[string]bool{}, model: map[string][]sut.MsgSnap{}, probeDomain: "inbucket.test", switches: swLabel}
 	if discard {
 		k.probeDomain = "discard.test"
 		c.Count("connections_to_discard_domain", 1)
@@ -509,6 +531,11 @@ func (k *conn) runProbe(r *fw.Rand, p probe) (string, bool) {
 	sig := func(outcome string) string {
 		c.Sample(map[string]any{"limit": limit, "backend": k.backend, "class": class, "crlf_len": len(p.data), "lo": p.lo, "hi": p.hi,
 			"shape": p.shape, "mail_params": p.sizeParam, "outcome": outcome})
+		if k.switches != "" {
+			// the switch variants are distinguished by switch set, class and outcome only (not by shape and SIZE variant)
+			c.Count("switched_outcome:"+outcome, 1)
+			return fmt.Sprintf("%d|%s|%s|sw=%s|%s", limit, k.backend, class, k.switches, outcome)
+		}
 		return fmt.Sprintf("%d|%s|%s|%s|%s|%s", limit, k.backend, class, p.shape, p.sizeKind, outcome)
 	}
 	noStore := func(when string) bool {
@@ -613,6 +640,9 @@ func (k *conn) runProbe(r *fw.Rand, p probe) (string, bool) {
 		c.Count("multiple_replies_after_data", 1)
 	}
 	first := replies[0]
+	if k.switches != "" {
+		k.countSwitched(class)
+	}
 	switch class {
 	case "must-refuse":
 		c.Count("must_refuse_data", 1)
